@@ -30,7 +30,10 @@ CLAIMS = {
     "C09": dict(text="Proved: lock creates exactly <amount, until, from>; a tick with epoch < until never debits or alters a lock record; after a HALTed tick no "
                      "20-byte lock record with until <= epoch remains (all expiring locks released, any number at once); the releasing step moves exactly the remaining "
                      "balance to the parent, deletes the record and emits one pair with the unlock details; an absent record is never unlocked again; burns reduce "
-                     "what is returned. Correspondence run + a lock life-cycle monitor on the contract.",
+                     "what is returned. System level (NeoFS.BalanceSystem = Netmap's epoch gate + the nested Balance tick, executed by the driver for real "
+                     "netmap.newEpoch transactions): a Netmap tick goes through iff Alphabet-witnessed and the epoch grows, ticks Balance with exactly that epoch, "
+                     "Netmap's epoch never goes back along any history, after every successful Netmap tick no lock is overdue w.r.t. Netmap's epoch, and the C01 "
+                     "sheet invariant holds after every system history. Correspondence run + a lock life-cycle monitor on the contract.",
                 note=NOTE + " Nested locks (a lock whose parent is itself an expiring lock) release in key order; the exact-refund theorems are stated for lock "
                             "accounts that are nobody's parent, which is what the Inner Ring creates.", technique=TECH),
 }
